@@ -193,9 +193,7 @@ func checkSettle1(c Case, r *vf.R) error {
 	}
 	rule := rules[c.Rule]
 	var q, qq *canvas.Path
-	if perr := vf.Try("Settle", func() {
-		vf.Watchdog("settle", c, 60*time.Second, func() { q = p.Settle(rule) })
-	}); perr != nil {
+	if perr := guard("Settle", func() { q = p.Settle(rule) }); perr != nil {
 		return vf.Errorf("%v.Settle(%v): %v", p, rule, perr)
 	}
 	for i, v := range p.Data() {
@@ -257,7 +255,7 @@ func checkSettle1(c Case, r *vf.R) error {
 		}
 	}
 	// idempotence: settling the settled path keeps region and vertex set (within the snap grid)
-	if perr := vf.Try("Settle(Settle)", func() { qq = q.Settle(canvas.NonZero) }); perr != nil {
+	if perr := guard("Settle(Settle)", func() { qq = q.Settle(canvas.NonZero) }); perr != nil {
 		return vf.Errorf("Settle of the settled path %v: %v", q, perr)
 	}
 	out2, err := oracle.Decode(qq.Data())
@@ -303,4 +301,18 @@ func TestSettle(t *testing.T) {
 		MaxRate: map[string]float64{"F02a": 0.0015, "F02b": 0.06, "F02c": 0.0002},
 		// measured at six seeds of the quick tier (480000 cases): 77, 9508 and 6 fall-backs
 		BaseRate: map[string]float64{"F02a": 0.00016, "F02b": 0.0198, "F02c": 0.0000125}})
+}
+
+// guard runs a library call: a panic becomes an error (vf.Try) and so does a call that does not return within a minute
+// (the call is left running in its goroutine; whether that is a violation or falls into a recorded finding class is
+// decided from the input like for any other failure).
+func guard(name string, f func()) error {
+	var herr error
+	if perr := vf.Try(name, func() { herr = vf.WatchdogErr(60*time.Second, f) }); perr != nil {
+		return perr
+	}
+	if herr != nil {
+		return vf.Errorf("%s: %w", name, herr)
+	}
+	return nil
 }
